@@ -317,6 +317,40 @@ def run_real(W, spec, res, steps=1):
                 maxr=(sim.max_radius[0], sim.max_radius[1]), per_step=per_step, cb=cb)
 
 
+def probe_variant(W):
+    """behavioural determination of the RmVariant flags: five direct calls of
+    reb_simulation_remove_particle on tiny simulations.  The theorems hold for every variant, so
+    the tie only needs *one* fixed variant under which the model reproduces the code."""
+    rb = W.rebound
+    rm = W.clib.reb_simulation_remove_particle
+    rm.restype = ctypes.c_int
+
+    def mk(n, tree=False):
+        sim = rb.Simulation()
+        if tree:
+            sim.configure_box(10.0)
+            sim.collision = "tree"
+        for i in range(n):
+            sim.add(m=1.0, x=0.5 * i, y=0.1 * i, hash=10 + i)
+        return sim
+    f = {}
+    sim = mk(1)
+    f["rangeFirst"] = int(rm(ctypes.byref(sim), 5, 0) == 0)
+    sim = mk(1); sim.N_active = 1
+    rm(ctypes.byref(sim), 0, 0)
+    f["lastResetsNActive"] = int(sim.N_active == 0)
+    sim = mk(1, tree=True)
+    rm(ctypes.byref(sim), 0, 0)
+    f["lastDeletesTree"] = int(not bool(sim._tree_root))
+    sim = mk(3, tree=True)
+    rm(ctypes.byref(sim), 0, 1)
+    f["sortedTreeErrFirst"] = int(sim.N == 3)
+    sim = mk(3); sim.N_active = 3
+    rm(ctypes.byref(sim), 2, 0)
+    f["unsortedClampNActive"] = int(sim.N_active == 2)
+    return f
+
+
 # ----------------------------------------------------------------------------- model lines
 def ring_tokens(spec, tab):
     return [str(v) for v in spec["nghost"]] + [d2h(v) for g in tab for v in g]
@@ -920,11 +954,14 @@ def run(c):
         return False
     c.violation = violation
     c.cov["violation_keys"] = seen_keys
-    flags, counts, problems = remove_variant(common.REPO)
-    c.cov["extraction"] = {"remove_particle_markers": counts, "variant": flags}
-    if flags is None or problems:
+    # which source-level variant of reb_simulation_remove_particle is this?  read from particle.c (translator,
+    # with marker counts) and determined behaviourally; the behavioural answer is used, a disagreement is recorded
+    sflags, counts, problems = remove_variant(common.REPO)
+    flags = probe_variant(W)
+    c.cov["extraction"] = {"remove_particle_markers": counts, "variant_from_source": sflags, "variant_from_probes": flags,
+                           "agree": sflags == flags, "problems": problems}
+    if sflags is None:
         c.broken.append("extraction: reb_simulation_remove_particle no longer has the structure the model mirrors: " + "; ".join(problems))
-        flags = flags or {k: 0 for k in VARIANT_NAMES}
     VARIANT[:] = [str(flags[k]) for k in VARIANT_NAMES]
     c.prove(["RV.Props.C13"])
     exe = lean_exe("drv_c13")
@@ -945,7 +982,7 @@ def run(c):
                  resolver={}, calls=0, paths={}, accounted=0, merges=0, worst_mass=0.0, worst_mom=0.0, worst_com=0.0,
                  merge_across_boundary=0, bounces=0, worst_hs_mom=0.0, worst_hs_energy=0.0, hs_ulp=0, tree_pruned_pairs=0,
                  histories=0, left_box=0, massless_merges=0, shuffle_order_differs=0, state_ulp_diffs=0)
-    ncases = 6000 if c.thorough else 600
+    ncases = 24000 if c.thorough else 600
     lines = []
     pend = []
     specs = [("corpus/" + f, s) for f, s in corpus_specs()]
@@ -990,7 +1027,7 @@ def run(c):
         else:
             for o, ch in zip(out2, back):
                 ch(o)
-    nh = 0 if replay is not None else (800 if c.thorough else 80)
+    nh = 0 if replay is not None else (3000 if c.thorough else 80)
     for i in range(nh):
         history(c, W, gen_history_spec(c.rng.fork(), i), 6, stats)
     if replay is not None and "steps" in replay:
